@@ -60,8 +60,16 @@ func (tr TemplatedRegexp) Expand(rule parser.Rule) (*regexp.Regexp, error) {
 	return regexp.Compile(buf.String())
 }
 
+// neverMatches is returned by MustExpand when the pattern cannot be expanded for a rule.
+var neverMatches = regexp.MustCompile(`[^\s\S]`)
+
 func (tr TemplatedRegexp) MustExpand(rule parser.Rule) *regexp.Regexp {
-	re, _ := tr.Expand(rule)
+	re, err := tr.Expand(rule)
+	if err != nil {
+		// Templates are validated against an empty rule when the config is loaded, but values
+		// taken from a real rule (its name, labels, ...) can turn the pattern into an invalid regexp.
+		return neverMatches
+	}
 	return re
 }
 
